@@ -5,14 +5,17 @@ package world
 
 import (
 	"context"
+	"crypto/sha256"
 	"encoding/base64"
 	"net/http"
 	"net/url"
+	"strconv"
 	"strings"
 	"time"
 
 	"github.com/ory/fosite"
 	"github.com/ory/fosite/compose"
+	"github.com/ory/fosite/handler/oauth2"
 	"github.com/ory/fosite/handler/openid"
 	"github.com/ory/fosite/storage"
 	"github.com/ory/fosite/token/jwt"
@@ -21,6 +24,9 @@ import (
 // XOptions selects the provider variant built by NewX.
 type XOptions struct {
 	Hybrid bool // also compose the OIDC hybrid handler (response_type "code token")
+	// JWTAccess: access tokens are JWTs (oauth2.DefaultJWTStrategy) signed by ModelSigner.
+	// Sessions must then be made by NewJWTSession.
+	JWTAccess bool
 	Tweak  func(cfg *fosite.Config)
 }
 
@@ -46,8 +52,12 @@ func NewX(opt XOptions) *World {
 	st.Clients["c2"] = NewClient("c2", Secret2, cfg)
 	st.Users["peter"] = storage.MemoryUserRelation{Username: "peter", Password: "pw-peter"}
 	noKey := func(context.Context) (interface{}, error) { return nil, fosite.ErrServerError }
+	var core oauth2.CoreStrategy = compose.NewOAuth2HMACStrategy(cfg)
+	if opt.JWTAccess {
+		core = &oauth2.DefaultJWTStrategy{Signer: NewModelSigner(), HMACSHAStrategy: compose.NewOAuth2HMACStrategy(cfg), Config: cfg}
+	}
 	strat := &compose.CommonStrategy{
-		CoreStrategy:               compose.NewOAuth2HMACStrategy(cfg),
+		CoreStrategy:               core,
 		RFC8628CodeStrategy:        compose.NewDeviceStrategy(cfg),
 		OpenIDConnectTokenStrategy: compose.NewOpenIDConnectStrategy(noKey, cfg),
 		Signer:                     &jwt.DefaultSigner{GetPrivateKey: noKey},
@@ -286,4 +296,128 @@ func KeyOf(tok string) string {
 		}
 	}
 	return tok
+}
+
+// ---- JWT access tokens through a model signer (assumption A-sig: signatures are unforgeable)
+
+// ModelSigner is an ideal jwt.Signer: a compact token verifies iff this signer generated exactly that
+// string; its claims are the ones it was generated with. Token strings are deterministic
+// ("eyJtb2RlbCI6MX0.<payload-n>.<modelsig-n>"), so runs are reproducible natively and symbolically.
+type ModelSigner struct {
+	n      int
+	claims map[string]jwt.MapClaims
+}
+
+func NewModelSigner() *ModelSigner { return &ModelSigner{claims: map[string]jwt.MapClaims{}} }
+
+func (m *ModelSigner) Generate(ctx context.Context, claims jwt.MapClaims, header jwt.Mapper) (string, string, error) {
+	if claims == nil || header == nil {
+		return "", "", fosite.ErrServerError
+	}
+	m.n++
+	k := strconv.Itoa(1000 + m.n)
+	sig := "bW9kZWxzaWc" + k
+	tok := "eyJtb2RlbCI6MX0.cGF5bG9hZA" + k + "." + sig
+	cp := jwt.MapClaims{}
+	for key, v := range claims {
+		cp[key] = v
+	}
+	m.claims[tok] = cp
+	return tok, sig, nil
+}
+
+func (m *ModelSigner) Validate(ctx context.Context, token string) (string, error) {
+	if _, ok := m.claims[token]; !ok {
+		return "", &jwt.ValidationError{Errors: jwt.ValidationErrorSignatureInvalid}
+	}
+	return m.GetSignature(ctx, token)
+}
+
+func (m *ModelSigner) Hash(ctx context.Context, in []byte) ([]byte, error) {
+	h := sha256.Sum256(in)
+	return h[:], nil
+}
+
+func (m *ModelSigner) Decode(ctx context.Context, token string) (*jwt.Token, error) {
+	c, ok := m.claims[token]
+	if !ok {
+		return nil, &jwt.ValidationError{Errors: jwt.ValidationErrorSignatureInvalid}
+	}
+	return &jwt.Token{Header: map[string]interface{}{"alg": "RS256"}, Claims: c, Method: "RS256"}, nil
+}
+
+func (m *ModelSigner) GetSignature(ctx context.Context, token string) (string, error) {
+	parts := strings.Split(token, ".")
+	if len(parts) != 3 {
+		return "", &jwt.ValidationError{Errors: jwt.ValidationErrorMalformed}
+	}
+	return parts[2], nil
+}
+
+func (m *ModelSigner) GetSigningMethodLength(ctx context.Context) int { return 32 }
+
+// NewJWTSession is the session type the JWT access-token strategy insists on.
+func NewJWTSession(subject string) *oauth2.JWTSession {
+	return &oauth2.JWTSession{
+		JWTClaims: &jwt.JWTClaims{Subject: subject, Extra: map[string]interface{}{}},
+		JWTHeader: &jwt.Headers{Extra: map[string]interface{}{}},
+		Subject:   subject,
+		Username:  subject,
+	}
+}
+
+// AuthorizeCodeSession is AuthorizeCodeAud with the session supplied by the caller.
+func (w *World) AuthorizeCodeSession(client string, scopes, audience []string, session fosite.Session) (string, error) {
+	form := url.Values{
+		"client_id":     {client},
+		"response_type": {"code"},
+		"redirect_uri":  {"https://" + client + ".example/cb"},
+		"scope":         {strings.Join(scopes, " ")},
+		"state":         {"state-0123456789"},
+	}
+	if len(audience) > 0 {
+		form.Set("audience", strings.Join(audience, " "))
+	}
+	ar, err := w.Provider.NewAuthorizeRequest(w.Ctx, get(form))
+	if err != nil {
+		return "", err
+	}
+	for _, s := range ar.GetRequestedScopes() {
+		ar.GrantScope(s)
+	}
+	for _, a := range ar.GetRequestedAudience() {
+		ar.GrantAudience(a)
+	}
+	resp, err := w.Provider.NewAuthorizeResponse(w.Ctx, ar, session)
+	if err != nil {
+		return "", err
+	}
+	return resp.GetCode(), nil
+}
+
+// ClientCredentialsSession runs the client_credentials grant with the given (empty) session.
+func (w *World) ClientCredentialsSession(client, secret string, scopes []string, session fosite.Session) (fosite.AccessResponder, error) {
+	form := url.Values{
+		"grant_type":    {"client_credentials"},
+		"scope":         {strings.Join(scopes, " ")},
+		"client_id":     {client},
+		"client_secret": {secret},
+	}
+	ar, err := w.Provider.NewAccessRequest(w.Ctx, post(form), session)
+	if err != nil {
+		return nil, err
+	}
+	for _, s := range ar.GetRequestedScopes() {
+		ar.GrantScope(s)
+	}
+	return w.Provider.NewAccessResponse(w.Ctx, ar)
+}
+
+// JWTSigOf returns the third segment of a compact JWT ("" if there is none).
+func JWTSigOf(tok string) string {
+	parts := strings.Split(tok, ".")
+	if len(parts) != 3 {
+		return ""
+	}
+	return parts[2]
 }
